@@ -58,7 +58,11 @@ where
 
     /// Inserts the `value` into the data structure.
     pub fn insert(&mut self, value: Value) {
-        self.reps.insert(&value.clone(), value);
+        // Inserting a value that is already a member must leave it in its set rather
+        // than resetting it to be its own representative
+        if self.reps.get(&value).is_none() {
+            self.reps.insert(&value.clone(), value);
+        }
     }
 
     /// Finds the root element corresponding to the query `value`.
